@@ -362,6 +362,15 @@ func (x *Exec) checkFrame(fr *Frame, fc *FuncContract, r RetEdge, envPre *SpecEn
 			switch n := a.(type) {
 			case *ESel:
 				base := envPre.eval(n.X)
+				if !isPointer(base.T) {
+					if b, _, off, cnt, ok := x.nestedSel(envPre, n); ok {
+						for j := off; j < off+cnt; j++ {
+							key, _ := e.heapKey("H", derefT(b.T), j)
+							allowed[key] = append(allowed[key], b.C[0])
+						}
+						return
+					}
+				}
 				st := derefT(base.T).Underlying().(*types.Struct)
 				if off, cnt, _, ok := e.ghostField(base.T, n.Name); ok {
 					for j := off; j < off+cnt; j++ {
